@@ -52,7 +52,21 @@ use crate::{
 
 pub const TOPIC: &str = "T";
 
+/// What Discovery has sent to the event loop and the event loop has not handled yet (the two run on
+/// different threads; the DiscoveryDB is already ahead)
+enum Pending {
+  ParticipantUpdated(GuidPrefix, Vec<DiscoveredReaderData>, Vec<DiscoveredWriterData>),
+  ParticipantsLost(Vec<GuidPrefix>),
+  ReaderUpdated(DiscoveredReaderData),
+  ReaderLost(GUID),
+  WriterUpdated(DiscoveredWriterData),
+  WriterLost(GUID),
+}
+
 pub struct DiscRig {
+  /// true: the notifications of the following calls are queued until `deliver_next` / `deliver_all`
+  pub defer: bool,
+  pending: std::collections::VecDeque<Pending>,
   ev: DPEventLoop,
   db: Arc<RwLock<DiscoveryDB>>,
   writer_status: StatusChannelReceiver<DataWriterStatus>,
@@ -186,6 +200,8 @@ impl DiscRig {
     });
 
     Self {
+      defer: false,
+      pending: std::collections::VecDeque::new(),
       ev,
       db,
       writer_status,
@@ -246,24 +262,24 @@ impl DiscRig {
       security_info: None,
     };
     let was_new = self.db.write().unwrap().update_participant(&data);
-    self.ev.verif_participant_updated(GuidPrefix::new(&prefix));
     // (on rediscovery discovery.rs re-reads its SEDP DataReaders for unread samples of that
     // participant; in this rig every SEDP sample has been consumed when it was injected)
-    if was_new {
-      // Discovery::process_discovered_participant_data: endpoints restored from the attic are
-      // announced to the event loop again
-      let (readers, writers) = self
+    // Discovery::process_discovered_participant_data: endpoints restored from the attic are
+    // announced to the event loop again (read from the DB now, on the Discovery side)
+    let (readers, writers) = if was_new {
+      self
         .db
         .read()
         .unwrap()
-        .endpoints_of_participant(GuidPrefix::new(&prefix));
-      for d in readers {
-        self.ev.verif_reader_updated(&d);
-      }
-      for d in writers {
-        self.ev.verif_writer_updated(&d);
-      }
-    }
+        .endpoints_of_participant(GuidPrefix::new(&prefix))
+    } else {
+      (vec![], vec![])
+    };
+    self.notify(Pending::ParticipantUpdated(
+      GuidPrefix::new(&prefix),
+      readers,
+      writers,
+    ));
     was_new
   }
 
@@ -280,8 +296,10 @@ impl DiscRig {
   pub fn cleanup(&mut self) -> Vec<([u8; 12], i64, i64)> {
     let removed = self.db.write().unwrap().participant_cleanup();
     let mut out = vec![];
+    self.notify(Pending::ParticipantsLost(
+      removed.iter().map(|(p, _)| *p).collect(),
+    ));
     for (p, reason) in removed {
-      self.ev.verif_participant_lost(p);
       if let LostReason::Timeout { lease, elapsed } = reason {
         out.push((
           pfx(p),
@@ -299,7 +317,7 @@ impl DiscRig {
   pub fn dispose_participant(&mut self, prefix: [u8; 12]) {
     let p = GuidPrefix::new(&prefix);
     self.db.write().unwrap().remove_participant(p, true);
-    self.ev.verif_participant_lost(p);
+    self.notify(Pending::ParticipantsLost(vec![p]));
   }
 
   /// SEDP subscription data (Discovery::handle_subscription_reader, Sample::Value)
@@ -318,14 +336,14 @@ impl DiscRig {
       content_filter: None,
     };
     let drd = self.db.write().unwrap().update_subscription(&drd);
-    self.ev.verif_reader_updated(&drd);
+    self.notify(Pending::ReaderUpdated(drd));
   }
 
   /// SEDP subscription dispose
   pub fn dispose_reader(&mut self, guid: [u8; 16]) {
     let g = guid_from_bytes(guid);
     self.db.write().unwrap().remove_topic_reader(g);
-    self.ev.verif_reader_lost(g);
+    self.notify(Pending::ReaderLost(g));
   }
 
   /// SEDP publication data
@@ -345,13 +363,58 @@ impl DiscRig {
       publication_topic_data: ptd,
     };
     let dwd = self.db.write().unwrap().update_publication(&dwd);
-    self.ev.verif_writer_updated(&dwd);
+    self.notify(Pending::WriterUpdated(dwd));
   }
 
   pub fn dispose_writer(&mut self, guid: [u8; 16]) {
     let g = guid_from_bytes(guid);
     self.db.write().unwrap().remove_topic_writer(g);
-    self.ev.verif_writer_lost(g);
+    self.notify(Pending::WriterLost(g));
+  }
+
+  fn notify(&mut self, n: Pending) {
+    self.pending.push_back(n);
+    if !self.defer {
+      self.deliver_all();
+    }
+  }
+
+  /// the event loop handles the oldest notification; false if none is waiting
+  pub fn deliver_next(&mut self) -> bool {
+    match self.pending.pop_front() {
+      None => false,
+      Some(n) => {
+        match n {
+          Pending::ParticipantUpdated(p, readers, writers) => {
+            self.ev.verif_participant_updated(p);
+            for d in readers {
+              self.ev.verif_reader_updated(&d);
+            }
+            for d in writers {
+              self.ev.verif_writer_updated(&d);
+            }
+          }
+          Pending::ParticipantsLost(ps) => {
+            for p in ps {
+              self.ev.verif_participant_lost(p);
+            }
+          }
+          Pending::ReaderUpdated(d) => self.ev.verif_reader_updated(&d),
+          Pending::ReaderLost(g) => self.ev.verif_reader_lost(g),
+          Pending::WriterUpdated(d) => self.ev.verif_writer_updated(&d),
+          Pending::WriterLost(g) => self.ev.verif_writer_lost(g),
+        }
+        true
+      }
+    }
+  }
+
+  pub fn deliver_all(&mut self) {
+    while self.deliver_next() {}
+  }
+
+  pub fn pending_notifications(&self) -> usize {
+    self.pending.len()
   }
 
   pub fn view(&mut self) -> DiscView {
